@@ -22,6 +22,8 @@ var (
 	// Reader errors
 	ErrNoValue      = errors.New("error property has no value")
 	ErrNegativeRead = errors.New("error negative read")
+	// ErrNestingDepth is returned for a packet whose elements are nested deeper than maxTagDepth.
+	ErrNestingDepth = errors.New("error xmp elements nested too deeply")
 	ErrBufferFull   = bufio.ErrBufferFull
 
 	// xmpRootTag starts with "<x:xmpmeta" and ends with "</x:xmpmeta>"
@@ -29,9 +31,14 @@ var (
 	xmpRootCloseTag = [...]byte{'<', '/', 'x', ':', 'x', 'm', 'p', 'm', 'e', 't', 'a', '>'}
 )
 
+// maxTagDepth bounds the nesting of elements (and with it the recursion of readTag); XMP
+// written by applications nests about ten levels deep.
+const maxTagDepth = 256
+
 type xmpReader struct {
-	r *bufio.Reader
-	a bool
+	r     *bufio.Reader
+	a     bool
+	depth int
 }
 
 func newXMPReader(r io.Reader) xmpReader {
@@ -325,7 +332,13 @@ func (br *xmpReader) readTag(xmp *XMP, parent Tag) (tag Tag, err error) {
 					return
 				}
 
-				if tag, err = br.readTag(xmp, tag); err != nil {
+				if br.depth >= maxTagDepth {
+					return tag, ErrNestingDepth
+				}
+				br.depth++
+				tag, err = br.readTag(xmp, tag)
+				br.depth--
+				if err != nil {
 					return
 				}
 			}
